@@ -60,8 +60,9 @@ def run_paths(ctx, fnname, mk):
 
 def decide(ctx, name, paths, goal, pre=(), replayer=None, expect_term=None):
     """goal(tr, ret, outs) -> formula; terminated paths are checked with expect_term(tr) -> formula describing when termination is allowed"""
-    nq = 0
+    nq = 0; nfeas = 0
     for pc, st, res in paths:
+        if smt.prove(lambda tr: z3.BoolVal(False), assumptions=list(pre) + list(pc), timeout=30).status == 'sat': nfeas += 1
         if st == 'ok':
             ret, outs = res
             r = smt.prove(lambda tr: goal(tr, ret, outs), assumptions=list(pre) + list(pc), timeout=60); nq += 1
@@ -77,7 +78,8 @@ def decide(ctx, name, paths, goal, pre=(), replayer=None, expect_term=None):
                 return inconc('ENCODING-MISMATCH: %s model %s does not reproduce natively (%s)' % (name, r.model, text))
             return viol(name, '%s: counterexample %s (%s)' % (name, r.model, r.info), replay=dict(kind=name, model=r.model))
         if r.status != 'unsat': return inconc('%s: %s' % (name, r.info))
-    return ok('%d path(s), %d queries' % (len(paths), nq), sample=dict(conversion=name, paths=len(paths)))
+    if nfeas == 0: return inconc('%s: vacuous, no path has satisfiable assumptions' % name)
+    return ok('%d path(s) (%d feasible under the integer encoding), %d queries' % (len(paths), nfeas, nq), sample=dict(conversion=name, paths=len(paths)))
 
 # ---------------------------------------------------------------- native helpers
 def helper(ctx):
